@@ -1,5 +1,12 @@
-//! Family binary (checks are registered here).
+//! Family binary: whole-Swarm checks over `SwarmSys` (C01, C02, C04–C07, C12b/c, C52, C53, C58).
+mod life;
+mod sys;
 
 fn main() {
-    mc::main_dispatch(&[]);
+    mc::main_dispatch(&[
+        ("C01", life::run_c01, life::META_C01),
+        ("C02", life::run_c02, life::META_C02),
+        ("C05", life::run_c05, life::META_C05),
+        ("C06", life::run_c06, life::META_C06),
+    ]);
 }
